@@ -781,6 +781,7 @@ def run(ck: Check):
 
     rng = ck.rng
     found = {}  # signature -> (violation, shortest history)
+    reported = set()
     first_mismatch = None
 
     def handle(hist, bucket):
@@ -798,7 +799,8 @@ def run(ck: Check):
                         "model_agrees": r["mismatch"] is None})
         if r["head"] is not None:
             for k2 in ("wf", "conf"):
-                if r["head"].get(k2) != "1":
+                if r["head"].get(k2) != "1" and ("head", k2) not in reported:
+                    reported.add(("head", k2))
                     ck.mismatch(f"extracted graph fails the model's {k2} check", r["head"])
             ck.extra["graph_checks"] = r["head"]
         if r["mismatch"] is not None and first_mismatch is None:
